@@ -28,7 +28,8 @@ RULE = ("random system bounds/exclusion zone x 1-6 proposals (priorities with ti
         "arrival histories = permutations + stale replacements + None/bounds-only recomputations + expiry patterns. "
         "distinct = canonical case JSON; non-trivial = >=2 proposals and >=2 distinct histories executed")
 REQUIRED_BUCKETS = ["conflicting-set", "conflict-free-set", "zone-straddling-bounds", "all-None-proposals",
-                    "ties", "expiry-drops-some", "stale-replaced", "zone-present", "target-on-zone-edge"]
+                    "ties", "expiry-drops-some", "stale-replaced", "zone-present", "target-on-zone-edge",
+                    "two-groups-share-actors"]
 REQUIRED_COUNTERS = ["targets_observed", "histories_run", "expiry_checks"]
 ASSUMPTIONS = ["history-freeness is checked for the final live set of each history (latest proposal per actor)"]
 
@@ -49,7 +50,13 @@ def gen(rng: Any, tier: str, i: int) -> Any:
     # creation times for the expiry sub-check: integers, max age 60
     for p in props:
         p["t"] = float(rng.choice([0, 10, 39, 40, 41, 100]))
-    return {"sys": sys, "excl": excl, "props": props, "oseed": rng.randrange(1 << 30),
+    # a second component group served by the same algorithm object, with the same actors (same priority and
+    # source id) but different ages / values: proposals of one group must never affect the other
+    props2 = []
+    for p in props:
+        if rng.random() < 0.7:
+            props2.append(dict(p, pref=rng.choice([None] + pm.VALS), t=float(rng.choice([0, 10, 39, 40, 41, 100]))))
+    return {"sys": sys, "excl": excl, "props": props, "props2": props2, "oseed": rng.randrange(1 << 30),
             "drop_at": float(rng.choice([60, 99, 100, 101, 160, 161]))}
 
 
@@ -133,10 +140,35 @@ def check(case: dict[str, Any], rec: Any) -> None:
     # expiry: proposals with (drop_at - t) > 60 stop counting
     drop_at = case["drop_at"]
     m = pm.new_matryoshka(60.0)
+    CID2 = frozenset({7})
+    props2 = case.get("props2", [])
+    order2 = list(props2)
+    hr.shuffle(order2)
     for p in props:
         m.calculate_target_power(pm.CID, pm.mk_proposal(p), sb, True)
+        if order2 and hr.random() < 0.6:
+            q = order2.pop()
+            m.calculate_target_power(CID2, pm.mk_proposal(q, cid=CID2), sb, True)
+    for q in order2:
+        m.calculate_target_power(CID2, pm.mk_proposal(q, cid=CID2), sb, True)
     m.drop_old_proposals(drop_at)
     after = _target(m, sb)
+    if props2:
+        rec.bucket("two-groups-share-actors")
+        t2 = m.calculate_target_power(CID2, None, sb, True)
+        live2 = [q for q in props2 if not (drop_at - q["t"]) > 60.0]
+        fresh2 = pm.new_matryoshka(60.0)
+        fresh2.calculate_target_power(CID2, pm.mk_proposal({"src": "zz-none", "prio": -99, "pref": None, "lo": None,
+                                                            "hi": None, "t": drop_at}, cid=CID2), sb, True)
+        for q in live2:
+            fresh2.calculate_target_power(CID2, pm.mk_proposal(q, cid=CID2), sb, True)
+        e2 = fresh2.calculate_target_power(CID2, None, sb, True)
+        rec.count("expiry_checks")
+        if t2 is None or e2 is None or abs(t2.as_watts() - e2.as_watts()) > 1e-6:
+            rec.violation("second-group-target-depends-on-other-groups-proposals-or-expiry",
+                          {"after_drop": None if t2 is None else t2.as_watts(),
+                           "fresh_with_live_only": None if e2 is None else e2.as_watts(), "drop_at": drop_at,
+                           "group2_live": [q["src"] for q in live2], "group2": props2})
     live = [p for p in props if not (drop_at - p["t"]) > 60.0]
     if len(live) < n:
         rec.bucket("expiry-drops-some")
